@@ -116,8 +116,11 @@ class RefreshTimer(Module):
         count = Signal(bits_for(trefi), reset=trefi-1)
 
         self.sync += [
-            If(self.wait & ~self.done,
-                count.eq(count - 1)
+            If(self.wait,
+                # Hold done until the request has been served (wait released).
+                If(~self.done,
+                    count.eq(count - 1)
+                )
             ).Else(
                 count.eq(count.reset)
             )
